@@ -18,7 +18,6 @@ from __future__ import annotations
 
 import logging
 from abc import abstractmethod
-from copy import deepcopy
 from typing import TYPE_CHECKING
 from typing import Any
 from typing import ClassVar
@@ -207,17 +206,10 @@ class BaseDiscipline(BaseMonitoredProcess):
         Returns:
             The input data to be cached.
         """
-        input_data_ = input_data.copy()
-
-        # Deepcopy the auto coupled data.
-        auto_coupled_names = set(self.io.input_grammar).intersection(
-            self.io.output_grammar
-        )
-
-        for auto_coupled_name in auto_coupled_names:
-            value = input_data.get(auto_coupled_name)
-            if value is not None:
-                input_data_[auto_coupled_name] = deepcopy(value)
+        # Copy the values, not only the ones of the auto coupled data:
+        # the discipline may modify any of its input arrays in place while running
+        # and the cache entry is the one of the data the discipline was called with.
+        input_data_ = deepcopy_dict_of_arrays(input_data)
 
         # Non simple caches require NumPy arrays.
         if not isinstance(self.cache, SimpleCache):
